@@ -301,6 +301,61 @@ def random_history(ctx, rnd, tid, n, length, classes, p_save=0.0, variants=("can
     return {"id": tid, "n": n, "events": events}
 
 
+def high_index_history(ctx, rnd, tid, n=300):
+    """Scale in SPACE: requests between positions above 256 - each pair connected twice (the second request changes
+    nothing), disconnected once, connected again; then save + load."""
+    api, _, _ = _rv()
+    p = make_project(n, rnd, simple_classes()[:5])
+    events = []
+
+    def one(A, B, via="method"):
+        out = request(p, via, A, B, None, toggle=0)
+        events.append({"op": "connect", "via": via, "A": A, "B": B, "outcome": out, "post": get_tables(p)})
+    for _ in range(6):
+        a, b = rnd.randrange(257, n), rnd.choice([rnd.randrange(1, 20), rnd.randrange(257, n)])
+        if a == b:
+            continue
+        A, B, NA = [{"m": a, "neg": False}], [{"m": b, "neg": False}], [{"m": a, "neg": True}]
+        one(A, B)
+        one(A, B, rnd.choice(["method", "rshift"]))
+        one(NA, B)
+        one(A, B)
+        one(B, A, "lshift")
+    out, q = save_load(p, "canonical")
+    events.append({"op": "saveload", "variant": "canonical", "sub": [], "outcome": out if q is None else "ok",
+                   "post": get_tables(q) if q is not None and len(q.modules) == n else get_tables(p)})
+    return {"id": tid, "n": n, "events": events}
+
+
+def hub_history(ctx, rnd, tid, cls, fan=20):
+    """One source of the given class (e.g. a MultiCtl) linked to `fan` destinations, some links freed and re-made, then
+    save + load with and without slot chunks."""
+    api, _, _ = _rv()
+    n = fan + 3
+    p = api.Project()
+    hub = p.new_module(cls)
+    for c in (simple_classes() * 10)[:n - 2]:
+        p.new_module(c)
+    events = []
+
+    def one(A, B):
+        out = request(p, "method", A, B, None, toggle=0)
+        events.append({"op": "connect", "via": "method", "A": A, "B": B, "outcome": out, "post": get_tables(p)})
+    one([{"m": 1, "neg": False}], [{"m": k, "neg": False} for k in range(2, 2 + fan)][:3])
+    for k in range(5, 2 + fan):
+        one([{"m": 1, "neg": False}], [{"m": k, "neg": False}])
+    for k in rnd.sample(range(2, 2 + fan), 4):
+        one([{"m": 1, "neg": True}], [{"m": k, "neg": False}])
+        one([{"m": 1, "neg": False}], [{"m": k, "neg": False}])
+    for variant in ("canonical", "never"):
+        out, q = save_load(p, variant)
+        events.append({"op": "saveload", "variant": variant, "sub": [], "outcome": out if q is None else "ok",
+                       "post": get_tables(q) if q is not None and len(q.modules) == n else get_tables(p)})
+        if q is not None and len(q.modules) == n:
+            p = q
+    return {"id": tid, "n": n, "events": events}
+
+
 def long_history(ctx, rnd, tid, ncycles, save_at_end=True):
     """Scale in TIME: hundreds of connect / disconnect cycles of one pair into a destination that also holds live links
     before and behind the freed slots (slots are never reused), then save + load.  One event per batch of cycles."""
